@@ -15,6 +15,6 @@ def _build(gw, rl):
 
 
 def groups():
-    return [Group('parseB_tail', ['C15'], 'Theo::parse, from the gathering of the pass errors to the return statement (Compiler/src/parse.cpp)', 'c_parse_tail', _build, timeout=600,
+    return [Group('parseB_tail', ['C15', 'C02'], 'Theo::parse, from the gathering of the pass errors to the return statement (Compiler/src/parse.cpp)', 'c_parse_tail', _build, timeout=600,
                   bounded='BOUNDED stand-in: at most one error per pass and one parser error (vector capacity 4, --unwind 6 with unwinding assertions)',
                   note='braced vector initialisation -> push_backs (N2), range-for desugared (N1, bodies braced first: N1a), return {..} -> aggregate (N18)')]
